@@ -99,6 +99,45 @@ def fault_stream(R, dud, drv, rng, tier):
         b3.close()
 
 
+def race_stream(R, drv, rng, tier):
+    """Objects are named by what the hashing code returns to each of the concurrent commit workers: a wide directory is committed
+    by the race-detector build; any report of unsynchronised access in the dud process means a worker can be handed another
+    file's digest. Thorough: additionally thousands of small files on the plain build, every object re-hashed."""
+    race_dud = vlib.build_dud(race=True)
+    cases = []
+    for i in range(2 if tier == "quick" else 6):
+        c = gen.basic_project(rng, "race-%d" % i, "quick", n_stages=1, wide=True, allow_skip=False)
+        for j in range(150):
+            c["init"].append(("file", c["stages"][0][1]["out"][0][0] + b"/many%03d.bin" % j if "d" in c["stages"][0][1]["out"][0][1]
+                              else b"unused/many%03d.bin" % j, "g:%d:%d" % (j, rng.choice([0, 1, 33, 5000]))))
+        c["ops"] = [("commit", rng.choice("lc"), []), ("status", []), ("commit", "c", [])]
+        c["env"] = dict(GOMAXPROCS="16")
+        cases.append(c)
+    runs, _ = s1.run_cases(race_dud, drv, cases)
+    for run in runs:
+        R.count(run["id"], True)
+        for st in run["steps"]:
+            if st.get("race"):
+                R.violation(dict(kind="property-violated-on-implementation", case=s1eval.case_json(run["case"]), describe=s1eval.describe(run["case"]),
+                                 violations=["the race detector reports unsynchronised access to shared data in the dud process during `%s` of a "
+                                             "directory with %d files: concurrent workers can be handed a digest that is not the digest of their "
+                                             "bytes. %s" % (s1.op_text(st["op"]), len(run["case"]["init"]), st["stderr"][-300:])]))
+                break
+        for t, msg in oracle(run):
+            R.violation(dict(kind="property-violated-on-implementation", case=s1eval.case_json(run["case"]), describe=s1eval.describe(run["case"]),
+                             violations=[msg]))
+            break
+    if tier == "thorough":
+        dud = vlib.build_dud()
+        big = []
+        for i in range(2):
+            init = [("dir", b"huge")] + [("file", b"huge/f%05d" % j, "g:%d:%d" % (j, j % 7)) for j in range(4000)]
+            big.append(dict(id="huge-%d" % i, init=init, stages=[(b"huge.yaml", dict(cmd=b"", wd=b".", out=[(b"huge", "d")]))],
+                            ops=[("commit", "l", []), ("commit", "c", [])], cache="rel", timeout=600))
+        runs, _ = s1.run_cases(dud, drv, big)
+        s1eval.evaluate(R, runs, oracle, None, lambda run: True)
+
+
 def main(tier, replay=None):
     R = vlib.Result(PROP, tier)
     R.cov["rule"] = ("S1 CLI histories of commit/checkout/status/push/fetch/run with workspace edits in between, both strategies, "
@@ -125,6 +164,8 @@ def main(tier, replay=None):
     for run in runs[:3]:
         R.sample(s1eval.describe(run["case"]))
     fault_stream(R, dud, drv, rng, tier)
+    if not replay:
+        race_stream(R, drv, rng, tier)
     R.absorb_audit(vlib.lean_audit(PROP))
     if tier == "thorough":
         ok, log = vlib.leanchecker(["DudModel.Props.C02"])
